@@ -394,6 +394,13 @@ def run_C15(ctx):
     kw["view"] = None
     ctx.tlc_phase("long-texts-simulate", "JsonIO", dict(TokAlphabet=JSON_TOKENS, MaxToks="14", EmitOn="TRUE"),
                   invariants=["NoPartial"], simulate="num=%d" % (3000 if q else 100000), depth=15, **kw)
+    # the writer: to_json of every layout (all node classes and encodings, NumPy leaves of one and two dimensions, contiguous
+    # or views into a wider buffer) parsed by Python's json equals the value
+    consts = session_consts(OpSet='{"tolist"}', LeafSet=MIXED_LEAVES + ' \\cup {Numpy("int64", <<1, 2, 3, 4, 5, 6>>)}', MaxDepth="2",
+                            MaxLen="2" if q else "3", Classes='{"Regular","ListOffset","List","IndexedOption","ByteMasked","Unmasked"}')
+    ctx.tlc_phase("to-json-every-layout", "Session", consts, invariants=["Refines", "Closed"],
+                  require_actions=["ToListOp", "WrapRegular", "WrapListOffset", "WrapIndexedOption"],
+                  sample_cases=(150000 if q else 1500000), timeout=600)
     ctx.pychain_phase("python-chains-code-to-spec", (4000 if ctx.quick() else 60000), 5, ops={"rt_json"})
     return ctx.finish(rule="one case = one JSON text (a token sequence rendered with a seeded choice of whitespace, string/file input and "
                            "read-buffer size 1..64k); all token sequences up to the bound, i.e. every truncation and single-token corruption",
